@@ -495,5 +495,159 @@ proof fn lemma_found_has_hash(log: AuthorshipLog, file: Seq<char>, line: u32, r:
 //@ }
 //#end
 
+// ---------------------------------------------------------------- blame_hunks_for_ranges: the git blame command line
+/// the argument vector as plain values
+pub open spec fn views(v: Seq<String>) -> Seq<Seq<char>> { Seq::new(v.len(), |i: int| v[i]@) }
+pub uninterp spec fn global_args() -> Seq<Seq<char>>;                        // repo.global_args_for_exec()
+pub uninterp spec fn fmt_range(s: u32, e: u32) -> Seq<char>;                 // format!("{},{}", s, e)
+pub uninterp spec fn fmt_date(d: DateTime<FixedOffset>) -> Seq<char>;        // to_rfc3339()
+pub uninterp spec fn fmt_commit_range(a: Seq<char>, b: Seq<char>) -> Seq<char>;   // format!("{}..{}", a, b)
+#[verifier::external_body]
+fn opq_global_args() -> (r: Vec<String>)
+    ensures views(r@) == global_args(),
+{ unimplemented!() }
+#[verifier::external_body]
+fn opq_fmt_range(s: u32, e: u32) -> (r: String)
+    ensures r@ == fmt_range(s, e),
+{ unimplemented!() }
+#[verifier::external_body]
+fn opq_rfc3339(d: &DateTime<FixedOffset>) -> (r: String)
+    ensures r@ == fmt_date(*d),
+{ unimplemented!() }
+#[verifier::external_body]
+fn opq_fmt_commit_range(a: &String, b: &String) -> (r: String)
+    ensures r@ == fmt_commit_range(a@, b@),
+{ unimplemented!() }
+/// `--ignore-rev <rev>` for each of the first n revisions, in order
+pub open spec fn ign_revs(revs: Seq<String>, n: int) -> Seq<Seq<char>>
+    decreases n
+{
+    if n <= 0 { Seq::<Seq<char>>::empty() } else { ign_revs(revs, n - 1) + seq!["--ignore-rev"@, revs[n - 1]@] }
+}
+/// `-L <start>,<end>` for each of the first n ranges, in order
+pub open spec fn l_flags(rs: Seq<(u32, u32)>, n: int) -> Seq<Seq<char>>
+    decreases n
+{
+    if n <= 0 { Seq::<Seq<char>>::empty() } else { l_flags(rs, n - 1) + seq!["-L"@, fmt_range(rs[n - 1].0, rs[n - 1].1)] }
+}
+pub open spec fn part_w(o: GitAiBlameOptions) -> Seq<Seq<char>> { if o.ignore_whitespace { seq!["-w"@] } else { Seq::<Seq<char>>::empty() } }
+pub open spec fn part_file(o: GitAiBlameOptions) -> Seq<Seq<char>> { match o.ignore_revs_file { Some(f) => seq!["--ignore-revs-file"@, f@], None => Seq::<Seq<char>>::empty() } }
+pub open spec fn part_since(o: GitAiBlameOptions) -> Seq<Seq<char>> { match o.oldest_date { Some(d) => seq!["--since"@, fmt_date(d)], None => Seq::<Seq<char>>::empty() } }
+pub open spec fn part_commit(o: GitAiBlameOptions) -> Seq<Seq<char>> {
+    match (o.oldest_commit, o.newest_commit) { (Some(a), Some(b)) => seq![fmt_commit_range(a@, b@)], (None, Some(b)) => seq![b@], _ => Seq::<Seq<char>>::empty() }
+}
+pub open spec fn part_contents(o: GitAiBlameOptions) -> Seq<Seq<char>> { if o.contents_data is Some { seq!["--contents"@, "-"@] } else { Seq::<Seq<char>>::empty() } }
+/// the command line git blame must be given for these options: EVERY option the caller set is passed, none is dropped
+pub open spec fn blame_cmdline(o: GitAiBlameOptions, ranges: Seq<(u32, u32)>, path: Seq<char>) -> Seq<Seq<char>> {
+    global_args() + seq!["blame"@, "--line-porcelain"@] + part_w(o) + ign_revs(o.ignore_revs@, o.ignore_revs@.len() as int) + part_file(o)
+    + l_flags(ranges, ranges.len() as int) + part_since(o) + part_commit(o) + part_contents(o) + seq!["--"@, path]
+}
+//#item file=src/commands/blame.rs kind=region name=bh_args in=blame_hunks_for_ranges from="let mut args = self.global_args_for_exec();" to="args.push(file_path.to_string());" from_nth=0 to_nth=0 impl="Repository" opaque='[{"expr": "self.global_args_for_exec()", "call": "opq_global_args()"}, {"expr": "format!(\"{},{}\", start_line, end_line)", "call": "opq_fmt_range(*start_line, *end_line)"}, {"expr": "date.to_rfc3339()", "call": "opq_rfc3339(date)"}, {"expr": "format!(\"{}..{}\", oldest, newest)", "call": "opq_fmt_commit_range(oldest, newest)"}]'
+//@ fn region_bh_args(file_path: &str, line_ranges: &[(u32, u32)], options: &GitAiBlameOptions) -> (args: Vec<String>)
+//@     ensures
+//@         // option pass-through: git blame is started with exactly this command line - -w, EVERY --ignore-rev AND the
+//@         // ignore-revs file, every -L range, --since, the commit (range), --contents, then `--` and the path
+//@         views(args@) == blame_cmdline(*options, line_ranges@, file_path@),
+//@ {
+        let mut args = opq_global_args();
+        args.push("blame".to_string());
+        args.push("--line-porcelain".to_string());
+        //@ let ghost a0 = global_args() + seq!["blame"@, "--line-porcelain"@];
+        //@ proof { assert(views(args@) =~= a0); }
+
+        // Ignore whitespace option
+        if options.ignore_whitespace {
+            args.push("-w".to_string());
+        }
+        //@ let ghost a1 = a0 + part_w(*options);
+        //@ proof { assert(views(args@) =~= a1); }
+
+        // Respect ignore options in use
+        for rev in it_0: &options.ignore_revs
+        //@     invariant
+        //@         it_0.snapshot@.remaining().len() == options.ignore_revs@.len(),
+        //@         forall|i: int| 0 <= i < options.ignore_revs@.len() ==> *(#[trigger] it_0.snapshot@.remaining()[i]) == options.ignore_revs@[i],
+        //@         views(args@) == a1 + ign_revs(options.ignore_revs@, it_0.index@),
+        {
+            //@ let ghost k = it_0.index@;
+            //@ let ghost v0 = views(args@);
+            //@ proof { assert(*rev == options.ignore_revs@[k]); }
+            args.push("--ignore-rev".to_string());
+            args.push(rev.clone());
+            //@ proof { assert(views(args@) =~= v0 + seq!["--ignore-rev"@, rev@]); assert(ign_revs(options.ignore_revs@, k + 1) == ign_revs(options.ignore_revs@, k) + seq!["--ignore-rev"@, options.ignore_revs@[k]@]);
+            //@     assert(views(args@) =~= a1 + ign_revs(options.ignore_revs@, k + 1)); }
+        }
+        //@ let ghost a2 = a1 + ign_revs(options.ignore_revs@, options.ignore_revs@.len() as int);
+        if let Some(file) = &options.ignore_revs_file {
+            args.push("--ignore-revs-file".to_string());
+            args.push(file.clone());
+        }
+        //@ let ghost a3 = a2 + part_file(*options);
+        //@ proof { assert(views(args@) =~= a3); }
+
+        // Limit to the specified ranges (git blame supports multiple -L flags).
+        for (start_line, end_line) in it_1: line_ranges
+        //@     invariant
+        //@         it_1.snapshot@.remaining().len() == line_ranges@.len(),
+        //@         forall|i: int| 0 <= i < line_ranges@.len() ==> *(#[trigger] it_1.snapshot@.remaining()[i]) == line_ranges@[i],
+        //@         views(args@) == a3 + l_flags(line_ranges@, it_1.index@),
+        {
+            //@ let ghost k = it_1.index@;
+            //@ let ghost v0 = views(args@);
+            //@ proof { assert((*start_line, *end_line) == line_ranges@[k]); }
+            args.push("-L".to_string());
+            args.push(opq_fmt_range(*start_line, *end_line));
+            //@ proof { assert(views(args@) =~= v0 + seq!["-L"@, fmt_range(*start_line, *end_line)]); assert(l_flags(line_ranges@, k + 1) == l_flags(line_ranges@, k) + seq!["-L"@, fmt_range(line_ranges@[k].0, line_ranges@[k].1)]);
+            //@     assert(views(args@) =~= a3 + l_flags(line_ranges@, k + 1)); }
+        }
+        //@ let ghost a4 = a3 + l_flags(line_ranges@, line_ranges@.len() as int);
+
+        // Add --since flag if oldest_date is specified
+        // This controls the absolute lower bound of how far back to look
+        if let Some(ref date) = options.oldest_date {
+            args.push("--since".to_string());
+            args.push(opq_rfc3339(date));
+        }
+        //@ let ghost a5 = a4 + part_since(*options);
+        //@ proof { assert(views(args@) =~= a5); }
+
+        // Support newest_commit option (equivalent to libgit2's newest_commit)
+        // This limits blame to only consider commits up to and including the specified commit
+        // When oldest_commit is also set, we use a range: oldest_commit..newest_commit
+        match (&options.oldest_commit, &options.newest_commit) {
+            (Some(oldest), Some(newest)) => {
+                // Use range format: git blame START_COMMIT..END_COMMIT -- file.txt
+                args.push(opq_fmt_commit_range(oldest, newest));
+            }
+            (None, Some(newest)) => {
+                // Only newest_commit set, use it as the commit to blame at
+                args.push(newest.clone());
+            }
+            (Some(_oldest), None) => {
+                // oldest_commit without newest_commit doesn't make sense for blame
+                // Just ignore oldest_commit in this case
+            }
+            (None, None) => {
+                // No commit specified, blame at HEAD (default)
+            }
+        }
+        //@ let ghost a6 = a5 + part_commit(*options);
+        //@ proof { assert(views(args@) =~= a6); }
+
+        // Add --contents flag if we have content data to pass via stdin
+        if options.contents_data.is_some() {
+            args.push("--contents".to_string());
+            args.push("-".to_string());
+        }
+        //@ let ghost a7 = a6 + part_contents(*options);
+        //@ proof { assert(views(args@) =~= a7); }
+
+        args.push("--".to_string());
+        args.push(file_path.to_string());
+        //@ proof { assert(views(args@) =~= a7 + seq!["--"@, file_path@]); }
+//@     args
+//@ }
+//#end
+
 } // verus!
 fn main() {}
